@@ -382,15 +382,20 @@ func (s *Store) mergeSegStacks(footer *Footer, splicePoint int,
 		if len(rv.childSegStacks) == 0 {
 			rv.childSegStacks = make(map[string]*segmentStack)
 		}
+		// Child collections are always compacted in full (splice
+		// point 0): their persisted segments are not aligned with
+		// the parent's, so the parent's splice point has no meaning
+		// for them, and a full merge also gives merge operators all
+		// of the child's segments to resolve against.
 		if footer == nil {
 			rv.childSegStacks[cName], _ =
-				s.mergeSegStacks(nil, splicePoint, newStack)
+				s.mergeSegStacks(nil, 0, newStack)
 			continue
 		}
 
 		childFooter, exists := footer.ChildFooters[cName]
 		if exists {
-			if childFooter.incarNum != higher.incarNum {
+			if childFooter.incarNum != newStack.incarNum {
 				// Fast child collection recreation, must not merge
 				// segments from prior incarnation.
 				childFooter = nil
@@ -398,7 +403,7 @@ func (s *Store) mergeSegStacks(footer *Footer, splicePoint int,
 		}
 
 		rv.childSegStacks[cName], _ =
-			s.mergeSegStacks(childFooter, splicePoint, newStack)
+			s.mergeSegStacks(childFooter, 0, newStack)
 	}
 
 	return rv, rvBase
@@ -410,18 +415,8 @@ func (right *Footer) spliceFooter(left *Footer, splicePoint int) {
 	slocs = append(slocs, right.SegmentLocs...)
 	right.SegmentLocs = slocs
 
-	for cName, childFooter := range right.ChildFooters {
-		storeChildFooter, exists := left.ChildFooters[cName]
-		if exists {
-			if storeChildFooter.incarNum != childFooter.incarNum {
-				// Fast child collection recreation, ok to drop store footer's
-				// segments from prior incarnation.
-				continue
-			}
-
-			childFooter.spliceFooter(storeChildFooter, splicePoint)
-		}
-	}
+	// The child footers of right are complete: child collections are
+	// always compacted in full (see mergeSegStacks).
 }
 
 func (s *Store) writeSegments(newSS, base *segmentStack,
@@ -486,7 +481,8 @@ func (s *Store) writeSegments(newSS, base *segmentStack,
 	}
 
 	compactFooter = &Footer{
-		refs: 1,
+		refs:     1,
+		incarNum: newSS.incarNum,
 		SegmentLocs: []SegmentLoc{
 			{
 				Kind:       SegmentKindBasic,
